@@ -72,6 +72,73 @@ fn compare(m: &mut Mon, format: &str, tname: &str, before: &[f64], after: Result
     }
 }
 
+/// The value embedded in a caller's own serde types whose derive buffers the content before handing it on (internally
+/// tagged enum, untagged enum, flattened struct) — the buffering deserializer is format-agnostic and always reports
+/// "human readable".
+#[derive(Serialize)]
+#[serde(tag = "kind")]
+enum TaggedS<'a, V> {
+    Curve { f: &'a V },
+}
+#[derive(serde::Deserialize)]
+#[serde(tag = "kind")]
+enum TaggedD<V> {
+    Curve { f: V },
+}
+#[derive(Serialize)]
+#[serde(untagged)]
+enum UntaggedS<'a, V> {
+    A(&'a V),
+}
+#[derive(serde::Deserialize)]
+#[serde(untagged)]
+enum UntaggedD<V> {
+    A(V),
+}
+#[derive(Serialize)]
+struct InnerS<'a, V> {
+    f: &'a V,
+}
+#[derive(serde::Deserialize)]
+struct InnerD<V> {
+    f: V,
+}
+#[derive(Serialize)]
+struct FlatS<'a, V> {
+    id: u32,
+    #[serde(flatten)]
+    inner: InnerS<'a, V>,
+}
+#[derive(serde::Deserialize)]
+struct FlatD<V> {
+    id: u32,
+    #[serde(flatten)]
+    inner: InnerD<V>,
+}
+
+/// round trips of the embedded value; `ser` / `de` are the format's entry points
+macro_rules! embedded {
+    ($v:expr, $flat:expr, $w:expr, $ser:path, $de:path, $fmt:expr) => {{
+        let want: Vec<u64> = $flat(&$w).iter().map(|x| x.to_bits()).collect();
+        let same = |got: &V| $flat(got).iter().map(|x| x.to_bits()).eq(want.iter().copied());
+        let b = $ser(&TaggedS::Curve { f: $v }).map_err(|e| format!("serialize inside an internally tagged enum: {}", e))?;
+        let TaggedD::Curve { f } = $de(&b).map_err(|e| format!("deserialize inside an internally tagged enum ({}): {}", $fmt, e))?;
+        if !same(&f) {
+            return Err(format!("value changes inside an internally tagged enum ({})", $fmt));
+        }
+        let b = $ser(&UntaggedS::A($v)).map_err(|e| format!("serialize inside an untagged enum: {}", e))?;
+        let UntaggedD::A(f) = $de(&b).map_err(|e| format!("deserialize inside an untagged enum ({}): {}", $fmt, e))?;
+        if !same(&f) {
+            return Err(format!("value changes inside an untagged enum ({})", $fmt));
+        }
+        let b = $ser(&FlatS { id: 7, inner: InnerS { f: $v } }).map_err(|e| format!("serialize inside a flattened struct: {}", e))?;
+        let fd: FlatD<V> = $de(&b).map_err(|e| format!("deserialize inside a flattened struct ({}): {}", $fmt, e))?;
+        if !same(&fd.inner.f) || fd.id != 7 {
+            return Err(format!("value changes inside a flattened struct ({})", $fmt));
+        }
+    }};
+}
+
 thread_local! {
     /// the previously decoded value of every type: the place the next value of that type is decoded INTO
     static PREV: std::cell::RefCell<std::collections::HashMap<std::any::TypeId, Box<dyn std::any::Any>>> = std::cell::RefCell::new(std::collections::HashMap::new());
@@ -91,6 +158,7 @@ fn rt_json<V: Serialize + DeserializeOwned + PartialEq + 'static>(v: &V, flat: i
                 return Err("deserialize in place (into an existing value) gives a different value than a fresh deserialize".to_string());
             }
         }
+        embedded!(v, flat, w, serde_json::to_vec, serde_json::from_slice, "json");
         let keep: V = serde_json::from_str(&s).map_err(|e| format!("deserialize: {}", e))?;
         PREV.with(|p| p.borrow_mut().insert(std::any::TypeId::of::<V>(), Box::new(keep)));
         // the same text through an io::Read source (a file, a socket): no borrowing from the input is possible there
@@ -112,6 +180,7 @@ fn rt_cbor<V: Serialize + DeserializeOwned + PartialEq>(v: &V, flat: impl Fn(&V)
         if flat(&w2).iter().map(|x| x.to_bits()).ne(flat(&w).iter().map(|x| x.to_bits())) {
             return Err("deserialize from a reader gives a different value than from a slice".to_string());
         }
+        embedded!(v, flat, w, serde_cbor::to_vec, serde_cbor::from_slice, "cbor");
         Ok((flat(&w), &w == v))
     }) {
         Ok(r) => r,
@@ -147,6 +216,20 @@ fn rt_borsh<V: borsh::BorshSerialize + borsh::BorshDeserialize + PartialEq>(v: &
         let w2: V = borsh::from_reader(&mut rd).map_err(|e| format!("deserialize from a chunked reader: {}", e))?;
         if flat(&w2).iter().map(|x| x.to_bits()).ne(flat(&w).iter().map(|x| x.to_bits())) {
             return Err("deserialize from a chunked reader gives a different value than from a slice".to_string());
+        }
+        // the value followed by other data in the same stream (a field of a larger record, two values back to back):
+        // decoding must consume exactly its own bytes
+        let mut buf = s.clone();
+        buf.extend_from_slice(&borsh::to_vec(&0xDEAD_BEEFu32).map_err(|e| format!("serialize: {}", e))?);
+        buf.extend_from_slice(&s);
+        buf.extend((0..2048u32).map(|i| (i % 251) as u8));
+        let mut rd = &buf[..];
+        let a: V = borsh::BorshDeserialize::deserialize_reader(&mut rd).map_err(|e| format!("deserialize (value followed by other data): {}", e))?;
+        let tag: u32 = borsh::BorshDeserialize::deserialize_reader(&mut rd).map_err(|e| format!("deserialize (the data after the value): {}", e))?;
+        let b: V = borsh::BorshDeserialize::deserialize_reader(&mut rd).map_err(|e| format!("deserialize (second value in the stream): {}", e))?;
+        let same = |q: &V| flat(q).iter().map(|x| x.to_bits()).eq(flat(&w).iter().map(|x| x.to_bits()));
+        if tag != 0xDEAD_BEEF || rd.len() != 2048 || !same(&a) || !same(&b) {
+            return Err("decoding a value that is followed by other data does not consume exactly its own bytes".to_string());
         }
         Ok((flat(&w), &w == v))
     }) {
